@@ -20,7 +20,7 @@ OPS = ("rfft", "ifft", "parseval", "fftconvolve", "correlate", "mspec")
 
 
 def REQUIRED(tier):
-    return [f"op:{o}" for o in OPS] + ["len:odd_good_size", "len:prime", "len:power_of_two", "direct_dft_checks", "op:rfft_after_longer", "class:max_zero", "input_unchanged_checks", "regime:second_operand_longer"]
+    return [f"op:{o}" for o in OPS] + ["len:odd_good_size", "len:prime", "len:power_of_two", "direct_dft_checks", "op:rfft_after_longer", "class:max_zero", "input_unchanged_checks", "regime:second_operand_longer", "mspec:after_interpolated_request"]
 
 
 def EXHAUSTIVE(tier):
@@ -142,6 +142,13 @@ def run_case(case, ctx):
                 ctx.violation("parseval", f"n={n} L={L}: sum x^2 = {e_t!r}, spectrum energy {e_f!r}", one)
             # ---------------- mspec
             ctx.evaluated(); ctx.count("op:mspec")
+            if n % 3 == 1:     # the other documented spelling is asked for first on the same object: the plain spectrum must not care
+                held = fs.form_spec()
+                held_copy = np.array(held.data, copy=True)
+                fs.form_spec(interpolate=True)
+                ctx.count("mspec:after_interpolated_request")
+                if not np.array_equal(np.asarray(held.data), held_copy):
+                    ctx.violation("mspec:earlier-result-overwritten", f"n={n}: a spectrum returned by form_spec() changed when form_spec(interpolate=True) was called afterwards", one)
             ms = np.asarray(fs.form_spec().data, dtype=np.float64)
             if ms.shape != X.shape or np.max(np.abs(ms - np.abs(X))) > 1e-5 * max(1.0, np.max(np.abs(X))):
                 ctx.violation("mspec", f"n={n}: amplitude spectrum differs from |bin|", one)
